@@ -67,13 +67,13 @@ Fixpoint value_eqb (a b : value) {struct a} : bool :=
        end) x y
   | _, _ => false
   end.
-(* ArgumentSetsAreEquals: position by position *)
-Fixpoint args_eqb (a b : list argument) : bool :=
-  match a, b with
-  | [], [] => true
-  | (na, va) :: a', (nb, vb) :: b' => bytes_eqb na nb && value_eqb va vb && args_eqb a' b'
-  | _, _ => false
-  end.
+(* ArgumentSetsAreEquals (after work/c04_fix_args-order-sensitive.patch): same length and, in both
+   directions, every argument is equal in value to the FIRST argument of its name on the other side;
+   before the repair the lists were compared position by position *)
+Definition args_contained (a b : list argument) : bool :=
+  forallb (fun x => match assoc (fst x) b with Some w => value_eqb (snd x) w | None => false end) a.
+Definition args_eqb (a b : list argument) : bool :=
+  Nat.eqb (length a) (length b) && args_contained a b && args_contained b a.
 Definition dir_eqb (a b : directive) : bool := bytes_eqb (d_name a) (d_name b) && args_eqb (d_args a) (d_args b).
 (* DirectiveSetsAreEqual: equal as multisets (each left directive matched with a distinct right one) *)
 Fixpoint remove_first_dir (d : directive) (l : list directive) : option (list directive) :=
@@ -141,7 +141,7 @@ Section IncludeSkip.
       end
     else DKeep.
   (* None: the node is removed; Some ds: the directives that stay.
-     The walker ranges over the directive refs it saw when it entered the node
+     BEFORE THE REPAIR the walker ranged over the directive refs it saw when it entered the node
      (`for _, i := range Directives.Refs`, slice header copied) while RemoveDirectiveFromNode deletes
      from that same backing array in place (`append(refs[:i], refs[i+1:]...)`): after a directive is
      dropped at position k the loop's next read, position k+1, already holds what was at k+2 -- the
@@ -174,9 +174,25 @@ Section IncludeSkip.
         end
       end
     end.
-  Definition eval_dirs (ds : list directive) : option (list directive) :=
+  Definition eval_dirs_aliased (ds : list directive) : option (list directive) :=
     let n := length ds in
     walk_dirs n O n (combine (seq O n) ds).
+  (* The repaired walker (work/c03_fix_directive-after-dropped-directive-not-visited.patch) ranges over
+     a copy of the directive refs: every directive is visited once, in order. *)
+  Fixpoint eval_dirs_copy (ds : list directive) : option (list directive) :=
+    match ds with
+    | [] => Some []
+    | d :: r =>
+      match dir_verdict d with
+      | DRemoveNode => None
+      | DDropDirective => eval_dirs_copy r
+      | DKeep => match eval_dirs_copy r with Some r' => Some (d :: r') | None => None end
+      end
+    end.
+  (* [aliased = true]: the walker before the repair *)
+  Variable aliased : bool.
+  Definition eval_dirs (ds : list directive) : option (list directive) :=
+    if aliased then eval_dirs_aliased ds else eval_dirs_copy ds.
 
   (* One walk over a node (None: the node was removed), and walkSelectionSet: the children are
      walked in order; as soon as one of them is removed the selection refs have changed and the
@@ -225,15 +241,18 @@ Section IncludeSkip.
 End IncludeSkip.
 
 Definition include_skip_fuel (d : document) : nat := (2 * doc_size d + 4)%nat.
-Definition include_skip (vars : list (bytes * json)) (d : document) : document :=
+Definition include_skip_gen (aliased : bool) (vars : list (bytes * json)) (d : document) : document :=
   let vdefs := doc_vardefs d in
   let fuel := include_skip_fuel d in
   map (fun def => match def with
                   | DOp o => DOp {| op_kind := op_kind o; op_name := op_name o; op_vars := op_vars o;
-                                    op_dirs := op_dirs o; op_sels := is_sels vars vdefs fuel (op_sels o) |}
+                                    op_dirs := op_dirs o; op_sels := is_sels vars vdefs aliased fuel (op_sels o) |}
                   | DFrag f => DFrag {| fr_name := fr_name f; fr_type := fr_type f; fr_dirs := fr_dirs f;
-                                        fr_sels := is_sels vars vdefs fuel (fr_sels f) |}
+                                        fr_sels := is_sels vars vdefs aliased fuel (fr_sels f) |}
                   end) d.
+(* the repaired pass (tied to the Go code by corr:C03/include_skip) and the pass before the repair *)
+Definition include_skip : list (bytes * json) -> document -> document := include_skip_gen false.
+Definition include_skip_pre_repair : list (bytes * json) -> document -> document := include_skip_gen true.
 
 (* ------------------------------------------------------------------ 2. fragment spread inlining *)
 Definition any_mem (a b : list name) : bool := existsb (fun x => mem_bytes x b) a.
@@ -255,6 +274,8 @@ Definition spread_replaceable (S : schema) (P F : name) : bool :=
     | Some KUnion, KInterface =>
       existsb (fun m => is_kind S m KObject && mem_bytes F (implements_of S m)) (members_of S P)
     | Some KUnion, KObject => mem_bytes F (members_of S P)
+    (* work/c04_fix_union-fragment-in-union-rejected.patch: UnionNodeIntersectsUnionNode *)
+    | Some KUnion, KUnion => existsb (fun m => is_kind S m KObject && mem_bytes m (members_of S F)) (members_of S P)
     | _, _ => false
     end
   end.
@@ -337,30 +358,57 @@ Section InlineSel.
         end
       end
     end.
-  Fixpoint il_sel (T : option name) (s : selection) : list selection :=
-    match s with
-    | SField a n args ds sub =>
-      [SField a n args ds ((fix go (l : list selection) : list selection :=
-                              match l with [] => [] | x :: r => il_sel (sub_type S T n) x ++ go r end) sub)]
-    | SInline c ds sub =>
-      if could_inline T c ds sub
-      then (fix go (l : list selection) : list selection :=
-              match l with [] => [] | x :: r => il_sel T x ++ go r end) sub
-      else
-        let T' := match c with Some x => Some x | None => T end in
-        [SInline c ds ((fix go (l : list selection) : list selection :=
-                          match l with [] => [] | x :: r => il_sel T' x ++ go r end) sub)]
-    | SSpread f ds => [s]
+  (* the fragment holds nothing but the placeholder directiveIncludeSkip left in it *)
+  Definition is_placeholder_only (sub : list selection) : bool :=
+    match sub with
+    | [SField (Some al) _ _ _ _] => bytes_eqb al s_internal_typename
+    | _ => false
     end.
-  Definition il_sels (T : option name) (l : list selection) : list selection := flat_map (il_sel T) l.
+  (* [drop_placeholder = true]: the repaired pass
+     (work/c03_fix_placeholder-left-after-fragment-inlining.patch) *)
+  Variable drop_placeholder : bool.
+  (* EnterSelectionSet: the first inlinable fragment from the left is resolved -- its selections
+     take its place, or, when it holds only the placeholder and the set has other selections, it is
+     removed -- and the scan starts over.  [done] holds the selections already scanned (none of them
+     an inlinable fragment), [todo] the rest. *)
+  Fixpoint il_level (fuel : nat) (T : option name) (done todo : list selection) : list selection :=
+    match fuel with
+    | O => done ++ todo
+    | Datatypes.S f =>
+      match todo with
+      | [] => done
+      | SInline c ds sub :: r =>
+        if could_inline T c ds sub then
+          if drop_placeholder && Nat.ltb 1 (length done + length todo) && is_placeholder_only sub
+          then il_level f T done r
+          else il_level f T done (sub ++ r)
+        else il_level f T (done ++ [SInline c ds sub]) r
+      | x :: r => il_level f T (done ++ [x]) r
+      end
+    end.
+  (* then the walker descends into what is left *)
+  Fixpoint il_sels (fuel : nat) (T : option name) (l : list selection) : list selection :=
+    match fuel with
+    | O => l
+    | Datatypes.S f =>
+      map (fun s => match s with
+                    | SField a n args ds sub => SField a n args ds (il_sels f (sub_type S T n) sub)
+                    | SInline c ds sub => SInline c ds (il_sels f (match c with Some x => Some x | None => T end) sub)
+                    | SSpread _ _ => s
+                    end) (il_level (Datatypes.S (sels_size l)) T [] l)
+    end.
 End InlineSel.
-Definition inline_sel (S : schema) (d : document) : document :=
+Definition inline_sel_gen (drop_placeholder : bool) (S : schema) (d : document) : document :=
   map (fun def => match def with
                   | DOp o => DOp {| op_kind := op_kind o; op_name := op_name o; op_vars := op_vars o; op_dirs := op_dirs o;
-                                    op_sels := il_sels S (root_type S (op_kind o)) (op_sels o) |}
+                                    op_sels := il_sels S drop_placeholder (Datatypes.S (sels_size (op_sels o)))
+                                                       (root_type S (op_kind o)) (op_sels o) |}
                   | DFrag fr => DFrag {| fr_name := fr_name fr; fr_type := fr_type fr; fr_dirs := fr_dirs fr;
-                                         fr_sels := il_sels S (Some (fr_type fr)) (fr_sels fr) |}
+                                         fr_sels := il_sels S drop_placeholder (Datatypes.S (sels_size (fr_sels fr)))
+                                                            (Some (fr_type fr)) (fr_sels fr) |}
                   end) d.
+Definition inline_sel : schema -> document -> document := inline_sel_gen true.
+Definition inline_sel_pre_repair : schema -> document -> document := inline_sel_gen false.
 
 (* ------------------------------------------------------------------ 5. merging of inline fragments and of fields with selections *)
 (* may [r] be merged into [l] (same selection set, [l] first) *)
@@ -442,5 +490,8 @@ Definition dedup (d : document) : document := map_doc_sels dd_sels d.
 (* ------------------------------------------------------------------ composition (the selection part of the first engine stage) *)
 Definition norm_selections (S : schema) (vars : list (bytes * json)) (d : document) : document :=
   dedup (remove_frag_defs (merge_sel (inline_sel S (self_alias (frag_inline S (include_skip vars d)))))).
+(* the same with the two passes as they were before their repairs *)
+Definition norm_selections_pre_repair (S : schema) (vars : list (bytes * json)) (d : document) : document :=
+  dedup (remove_frag_defs (merge_sel (inline_sel_pre_repair S (self_alias (frag_inline S (include_skip_pre_repair vars d)))))).
 
 Definition vars_of_json (j : json) : list (bytes * json) := match j with JObj m => m | _ => [] end.
